@@ -1,7 +1,7 @@
 """Property table: which harness sources / configurations / budgets decide each property."""
 
 D_GROUPS = ['SO2d', 'SE2d', 'SO3d', 'SE3d', 'SE_2_3d', 'SGal3d', 'R3d']
-F_GROUPS = ['SO2f', 'SE2f', 'SO3f', 'SE3f', 'SE_2_3f', 'R3f']
+F_GROUPS = ['SO2f', 'SE2f', 'SO3f', 'SE3f', 'SE_2_3f', 'SGal3f', 'R3f']
 BUNDLES = ['B_SE3_SO2_R3_d', 'B_SGal3_SE2_SE23_SO3_R1_d']
 ALL_BUNDLES = ['B_SE3_SO2_R3_d', 'B_SGal3_SE2_SE23_SO3_R1_d', 'B_R2_SO3_SO3_SE2_d', 'B_SE23_SGal3_d',
                'B_SO2_d', 'B_R9_d', 'B_SE2x3_d', 'B_SO2_SGal3_SO2_d']
@@ -54,9 +54,9 @@ PROPS = {
         'rule': 'one of 31 (operation, differentiated argument) pairs x generated elements / tangents / points; logarithm-type operations restricted to relative rotation <= pi-1e-6; non-trivial: argument rotation != 0 and a linear component >= 1e-3',
         'assumptions': ASSUME_ORACLE + ['derivative oracle: Richardson-extrapolated central differences of the reference model on the tangent space (h=1e-6 long double, h=1e-20 in 50 digits), self-estimated error <= 1e-8 or the case is counted inconclusive'],
         'stages': [
-            {'src': 'C05.cpp', 'configs': D_GROUPS + ['SE2f', 'SE3f'] + BUNDLES,
+            {'src': 'C05.cpp', 'configs': D_GROUPS + ['SE2f', 'SE3f', 'SE_2_3f', 'SGal3f', 'B_SE3_SO2_R3_f'] + BUNDLES,
              'cases': {'quick': 2500, 'thorough': 60000}, 'shards': {'quick': 1, 'thorough': 2},
-             'case_scale': {'B_SE3_SO2_R3_d': 0.3, 'B_SGal3_SE2_SE23_SO3_R1_d': 0.08, 'SGal3d': 0.5}},
+             'case_scale': {'B_SE3_SO2_R3_d': 0.3, 'B_SE3_SO2_R3_f': 0.3, 'B_SGal3_SE2_SE23_SO3_R1_d': 0.08, 'SGal3d': 0.5, 'SGal3f': 0.5}},
         ],
     },
     'C07': {
@@ -117,7 +117,7 @@ PROPS = {
         'stages': [
             {'src': 'C12.cpp', 'configs': ['SO2j', 'SE2j', 'SO3j', 'SE3j', 'SE_2_3j', 'SGal3j', 'R3j', 'B_SE3_SO2_R3_j'],
              'cases': {'quick': 3000, 'thorough': 150000}, 'shards': {'quick': 1, 'thorough': 2}, 'case_scale': {'SGal3j': 0.5, 'B_SE3_SO2_R3_j': 0.5}},
-            {'src': 'C12.cpp', 'configs': F_GROUPS + ['SGal3f', 'B_SE3_SO2_R3_f'], 'tag': '-float',
+            {'src': 'C12.cpp', 'configs': F_GROUPS + ['B_SE3_SO2_R3_f'], 'tag': '-float',
              'cases': {'quick': 3000, 'thorough': 150000}, 'shards': {'quick': 1, 'thorough': 2}},
         ],
     },
@@ -125,7 +125,7 @@ PROPS = {
         'rule': 'constructor arguments: angles over +-20 pi incl. multiples of pi/2 and near-pi values, forced gimbal pitch, quaternions of both hemispheres (element strata of 1.3), translations/velocities/time 0..1e6, norm deviation delta/eps in {0,.1,.5,.9,1.1,2,10,1e3,1e12} x sign; non-trivial: angle outside the principal range, gimbal, w<0, or delta within a factor 2 of eps',
         'assumptions': ['reference rotations (Rz Ry Rx, Rodrigues via the reference exponential) in long double', 'two builds: assertions enabled and -DNDEBUG'],
         'stages': [
-            {'src': 'C13.cpp', 'configs': D_GROUPS + ['R1d'] + F_GROUPS + ['SGal3f', 'B_SE3_SO2_R3_d', 'B_SE3_SO2_R3_f', 'B_SGal3_SE2_SE23_SO3_R1_d'],
+            {'src': 'C13.cpp', 'configs': D_GROUPS + ['R1d'] + F_GROUPS + ['B_SE3_SO2_R3_d', 'B_SE3_SO2_R3_f', 'B_SGal3_SE2_SE23_SO3_R1_d'],
              'cases': {'quick': 6000, 'thorough': 300000}, 'shards': {'quick': 1, 'thorough': 2}},
             {'src': 'C13.cpp', 'configs': ['SO2d', 'SE2d', 'SO3d', 'SE3d', 'SE_2_3d', 'SGal3d', 'SE3f', 'B_SE3_SO2_R3_f'], 'tag': '-ndebug', 'defs': ['-DNDEBUG'],
              'cases': {'quick': 3000, 'thorough': 100000}, 'shards': {'quick': 1, 'thorough': 1}},
@@ -215,7 +215,7 @@ PROPS = {
         'rule': 'tangent (theta up to pi-1e-6, strata of 1.3) x two elements x second tangent; non-trivial: theta != 0 and a linear component >= 1e-3',
         'assumptions': ASSUME_ORACLE,
         'stages': [
-            {'src': 'C06.cpp', 'configs': D_GROUPS + ['SE2f', 'SE3f', 'SO3f'] + BUNDLES,
+            {'src': 'C06.cpp', 'configs': D_GROUPS + ['SE2f', 'SE3f', 'SO3f', 'SE_2_3f', 'SGal3f', 'B_SE3_SO2_R3_f'] + BUNDLES,
              'cases': {'quick': 6000, 'thorough': 200000}, 'shards': {'quick': 1, 'thorough': 2},
              'case_scale': {'B_SGal3_SE2_SE23_SO3_R1_d': 0.15}},
         ],
